@@ -203,4 +203,97 @@ Proof.
   - unfold merge_sum_duplicates in HE. rewrite EL in HE. discriminate.
 Qed.
 
+(* ------------------------------------------------------------------ merge_all_sum_duplicates *)
+(* the compaction of the min stack (first half of ma_ok): merge_all is merge_sum_duplicates on a state with the same
+   buffer and `ind`, whose stack holds the occupied levels only and still satisfies the invariant *)
+Lemma ma_reduce c :
+  stack_ok Q c -> ind c <= cap c ->
+  exists m2, merge_all_sum_duplicates c = merge_sum_duplicates (set_mn c m2) /\ stack_ok Q (set_mn c m2).
+Proof.
+  intros [Hd Hz Hch Hi Hk Hfree Hruns] Huc.
+  set (d := depth c) in *. set (m := mn c) in *.
+  set (X := slice m 0 d).
+  assert (SX : seg m 0 d X) by (apply seg_slice; lia).
+  assert (LX : zlen X = d) by (destruct SX as (_ & H & _); lia).
+  assert (EX : X = firstn (Z.to_nat d) m) by (unfold X, slice; rewrite Z.sub_0_r; reflexivity).
+  set (pos := filter gt0 X).
+  assert (Lp : 0 <= zlen pos <= d).
+  { split; [apply zlen_nonneg|]. rewrite <- LX. unfold pos, zlen.
+    pose proof (filter_length_le' gt0 X). lia. }
+  unfold merge_all_sum_duplicates. fold d. fold m.
+  replace (Z.to_nat d) with (length X) by (unfold zlen in LX; lia).
+  rewrite (positives_ok m X 0 d SX). simpl bind. fold pos.
+  set (new_min := pos ++ repeat 0 (length X - length pos)).
+  assert (Ln : zlen new_min = d).
+  { unfold new_min. zl. unfold zlen in *. lia. }
+  destruct (assign_slice_ok S_ma_assign m 0 d new_min) as (m2 & E1 & E2 & E3); [lia|lia|lia|].
+  rewrite E1. simpl bind.
+  simpl firstn in E2. rewrite app_nil_l in E2.
+  exists m2. split; [reflexivity|].
+  assert (N1 : forall j, 0 <= j < zlen pos -> nthZ m2 j = nthZ pos j).
+  { intros j Hj. rewrite E2. unfold new_min. rewrite <- app_assoc. apply nthZ_app_l. lia. }
+  assert (N2 : forall j, zlen pos <= j < d -> nthZ m2 j = 0).
+  { intros j Hj. rewrite E2. unfold new_min. rewrite <- app_assoc. rewrite nthZ_app_r by lia.
+    rewrite nthZ_app_l by (zl; unfold zlen in *; lia). apply nthZ_repeat. unfold zlen in *. lia. }
+  assert (N3 : forall j, d <= j -> nthZ m2 j = 0).
+  { intros j Hj. rewrite E2. rewrite nthZ_app_r by lia. rewrite Ln.
+    destruct (Z_lt_le_dec j (zlen m)).
+    - unfold nthZ. destruct (j - d <? 0) eqn:E; [apply Z.ltb_lt in E; lia|].
+      rewrite nth_skipn'. replace (Z.to_nat d + Z.to_nat (j - d))%nat with (Z.to_nat j) by lia.
+      specialize (Hz j Hj). unfold nthZ in Hz. destruct (j <? 0) eqn:E'; [apply Z.ltb_lt in E'; lia|]. exact Hz.
+    - apply nthZ_beyond. rewrite zlen_skipn by lia. lia. }
+  assert (PX : forall x, In x pos -> x > 0 /\ In x X).
+  { intros x Hx. apply filter_In in Hx. destruct Hx as [H1 H2]. unfold gt0 in H2. apply Z.gtb_lt in H2. split; [lia|exact H1]. }
+  assert (SXs : StronglySorted absge X).
+  { apply adjacent_sorted. intros j Hj0 Hj. rewrite EX, !nthZ_firstn by lia. apply Hch. lia. }
+  assert (Sp : StronglySorted absge pos) by (apply filter_sorted, SXs).
+  assert (RL : runs_list (buf c) X 0).
+  { apply (runs_list_of_pointwise (buf c) m 0 X 0 d SX); [apply Hz; lia| |].
+    - intros j Hj. apply Hfree. lia.
+    - intros j Hj. apply (Hruns j). lia. }
+  assert (RL2 : runs_list (buf c) new_min 0) by (apply runs_filter, RL).
+  assert (S2 : seg m2 0 d new_min).
+  { split; [lia|]. split; [lia|]. rewrite slice0_firstn, E2. apply firstnZ_app. symmetry; exact Ln. }
+  pose proof (pointwise_of_runs_list (buf c) m2 0 new_min 0 d S2 (N3 d ltac:(lia)) RL2) as PW.
+  assert (H0 : Z.abs (nthZ m2 0) = Z.abs (nthZ m 0)).
+  { rewrite <- (start_of_seg m2 new_min 0 d 0 S2 (N3 d ltac:(lia))).
+    rewrite <- (start_of_seg m X 0 d 0 SX (Hz d ltac:(lia))). apply (start_filter (buf c)), RL. }
+  constructor; unfold set_mn; simpl; fold d.
+  - lia.
+  - intros j Hj. apply N3, Hj.
+  - intros j Hj.
+    destruct (Z_lt_le_dec (j + 1) (zlen pos)).
+    + rewrite !N1 by lia. apply (sorted_adjacent pos Sp); lia.
+    + assert (nthZ m2 (j + 1) = 0) as ->.
+      { destruct (Z_lt_le_dec (j + 1) d); [apply N2; lia|apply N3; lia]. }
+      simpl. apply Z.abs_nonneg.
+  - rewrite H0. fold m in Hi. exact Hi.
+  - exact Hk.
+  - intros j Hj. apply (PW j). lia.
+  - intros j Hj. unfold run_at; simpl. apply (PW j). lia.
+Qed.
+
+(* merge_all_sum_duplicates neither loses nor invents a key *)
+Lemma ma_keys c c' :
+  stack_ok Q c -> ind c <= cap c -> merge_all_sum_duplicates c = Ok c' -> same_keys (live c') (live c).
+Proof.
+  intros SO Huc HE. destruct (ma_reduce c SO Huc) as (m2 & E & SO2). rewrite E in HE.
+  apply (msd_keys (set_mn c m2) c' SO2 Huc HE).
+Qed.
+
+(* after merge_all the live keys are distinct, so `ind` is the number of distinct keys that were live before it *)
+Lemma ma_ind_distinct c :
+  stack_ok Q c -> ind c <= cap c -> cnt (mn c) (depth c) + 1 < 2 ^ (zlen (mn c) - 1) ->
+  Z.abs (nthZ (mn c) 0) = ind c ->
+  exists c', merge_all_sum_duplicates c = Ok c' /\ op_post Q c c' /\ ssorted (live c') /\
+             same_keys (live c') (live c) /\ ind c' = zlen (nodup Z.eq_dec (keys (live c))).
+Proof.
+  intros SO Huc Hcnt Htail. destruct (ma_ok Q c SO Huc Hcnt Htail) as (c' & E & P & Hs).
+  pose proof (ma_keys c c' SO Huc E) as K.
+  exists c'. split; [exact E|]. split; [exact P|]. split; [exact Hs|]. split; [exact K|].
+  destruct P as (SO' & P1 & _ & P3 & _).
+  rewrite <- (ssorted_count_distinct (live c') (live c) K Hs).
+  symmetry. apply zlen_live. lia.
+Qed.
+
 End WithQ.
